@@ -3899,3 +3899,105 @@ def gen_PyNumeric(repo):
     L.append("\ndef files : List String := %s" % lean_list([lean_str(r) for r, _ in names]))
     L.append("\nend Strengths.Gen.PyNumeric")
     return "\n".join(L) + "\n"
+
+
+# =============================================================================================
+# PySetters: failure atomicity of the public setters — per source file, every property setter and `set_*` method
+# with its execution paths as event lists (store into `self.<attr>`, `raise`, call of a checking function)
+# =============================================================================================
+PYSETTER_FILES = ["units.py", "rdnetwork.py", "rdgridspace.py", "rdgraphspace.py", "rdsystem.py", "rdscript.py", "rdoutput.py",
+                  "librdengine.py"]
+
+
+def _setter_paths(fn, cap=4000):
+    """execution paths of a function body as tuples of events ('S', attr) | ('R',) | ('C', name); loops 0-2 times"""
+    def stores(node):
+        tg = node.targets if isinstance(node, ast.Assign) else [node.target] if isinstance(node, (ast.AugAssign, ast.AnnAssign)) else []
+        out = []
+        for t in tg:
+            for tt in ast.walk(t):
+                if isinstance(tt, ast.Attribute) and isinstance(tt.value, ast.Name) and tt.value.id == "self":
+                    out.append(("S", tt.attr))
+        return out
+
+    def checks(node):
+        out = []
+        for n in ast.walk(node):
+            if isinstance(n, ast.Call):
+                f = n.func
+                name = f.attr if isinstance(f, ast.Attribute) else (f.id if isinstance(f, ast.Name) else "")
+                if re.search(r"check|valid|assert", name):
+                    out.append(("C", name))
+        return out
+
+    def add(path, evs):
+        p = list(path)
+        for e in evs:
+            if not p or p[-1] != e:
+                p.append(e)
+        return tuple(p)
+
+    def run(stmts, paths):
+        """paths: set of (events, live) ; returns same"""
+        for s in stmts:
+            live = {p for p, l in paths if l}
+            dead = {(p, False) for p, l in paths if not l}
+            if not live:
+                return paths
+            if isinstance(s, ast.Raise):
+                paths = dead | {(add(p, [("R",)]), False) for p in live}
+            elif isinstance(s, ast.Return):
+                paths = dead | {(add(p, checks(s)), False) for p in live}
+            elif isinstance(s, ast.If):
+                t = checks(s.test)
+                start = {(add(p, t), True) for p in live}
+                paths = dead | run(s.body, set(start)) | run(s.orelse, set(start))
+            elif isinstance(s, (ast.For, ast.While)):
+                hd = checks(s.iter if isinstance(s, ast.For) else s.test)
+                start = {(add(p, hd), True) for p in live}
+                once = run(s.body, set(start))
+                twice = run(s.body, {(p, True) for p, l in once if l})
+                paths = dead | start | once | twice
+            elif isinstance(s, ast.Try):
+                body = run(s.body, {(p, True) for p in live})
+                res = set(body)
+                for h in s.handlers:
+                    res |= run(h.body, {(p, True) for p, _ in body})
+                paths = dead | res
+            elif isinstance(s, ast.With):
+                paths = dead | run(s.body, {(p, True) for p in live})
+            else:
+                paths = dead | {(add(p, checks(s) + stores(s)), True) for p in live}
+            if len(paths) > cap:
+                raise AnchorLost("setter %s has more than %d paths" % (fn.name, cap))
+        return paths
+    return sorted({p for p, _ in run(fn.body, {((), True)})})
+
+
+@group
+def gen_PySetters(repo):
+    L = ["namespace Strengths.Gen.PySetters\n",
+         "inductive Ev | store (attr : String) | raise | check (fn : String)\n  deriving DecidableEq, Repr\n",
+         "structure Setter where\n  cls : String\n  name : String\n  paths : List (List Ev)\n  deriving DecidableEq, Repr\n",
+         "/-- per source file: every `@<name>.setter` method and every `set_*` method of every class, with its execution paths\n"
+         "(loops taken 0, 1 or 2 times; consecutive equal events merged) -/"]
+
+    def ev(e):
+        return ".store %s" % lean_str(e[1]) if e[0] == "S" else ".raise" if e[0] == "R" else ".check %s" % lean_str(e[1])
+    for rel in PYSETTER_FILES:
+        src = PySrc(repo, "src/strengths/" + rel)
+        rows = []
+        for c in src.tree.body:
+            if not isinstance(c, ast.ClassDef):
+                continue
+            for fn in c.body:
+                if not isinstance(fn, ast.FunctionDef):
+                    continue
+                is_setter = any(isinstance(d, ast.Attribute) and d.attr == "setter" for d in fn.decorator_list)
+                if is_setter or fn.name.startswith("set_") or (rel == "librdengine.py" and fn.name in ("setup", "finalize")):
+                    paths = _setter_paths(fn)
+                    rows.append("⟨%s, %s, %s⟩" % (lean_str(c.name), lean_str(fn.name),
+                                                 lean_list([lean_list([ev(e) for e in p]) for p in paths])))
+        L.append("def setters_%s : List Setter := %s" % (rel[:-3], lean_list(rows)))
+    L.append("\nend Strengths.Gen.PySetters")
+    return "\n".join(L) + "\n"
